@@ -24,7 +24,7 @@ LEVEL_TEXT = ("Random programs over 2-5 seeded screen objects (both infinite var
               "unrelated library calls (incl. optimal_grouping, which consumes NumPy's global generator), reseeding and draws from the global "
               "generators, and further instances with the same seed. Each object's outputs must be bit-identical to its own sequence run "
               "alone in a fresh interpreter, seeded calls must leave the global generators untouched, different seeds / unseeded calls must "
-              "differ (also after the global generators were put in the same state, across sibling processes forked after import, and for seeds congruent modulo 2^32). Thorough adds threads owning their own instances under a 1 us switch interval. Exploration over interleavings.")
+              "differ (also among 1500-6000 rapid unseeded calls, for objects that are one screen in other length units, after the global generators were put in the same state, across sibling processes forked after import, and for seeds congruent modulo 2^32). Thorough adds threads owning their own instances under a 1 us switch interval. Exploration over interleavings.")
 LEVEL_NOTE = "Trusted: a fresh /venv interpreter running only aomon/isolated.py is the isolation oracle; blake2b digests."
 RULE = "case = one program (object set, seeds, interleaving); non-trivial when >= 2 objects and >= 1 hostile action are interleaved; distinct by program seed"
 ASSUMPTIONS = ["same seed and parameters => same stream (numpy PCG64 is deterministic across processes)"]
@@ -49,7 +49,14 @@ def rand_object(rng, share=None):
     if share is not None and rng.random() < 0.6:
         # same geometry as an earlier object, different r0 or pixel scale: instances must still be independent
         kind, p = share["kind"], dict(share["params"])
-        if "r0" in p and rng.random() < 0.7:
+        if rng.random() < 0.35:
+            # the same screen in other length units (every length times one factor): all ratios, hence any key built
+            # from ratios, coincide, but the screens are different numbers
+            cu = float(rng.choice([5.0, 10.0, 0.1, 3.0, 0.2, 1e-3]))
+            for k in ("ps", "delta", "r0", "L0", "l0"):
+                if k in p:
+                    p[k] = p[k] * cu
+        elif "r0" in p and rng.random() < 0.7:
             p["r0"] = p["r0"] * float(rng.uniform(1.3, 3))
         else:
             p["ps" if "ps" in p else "delta"] *= float(rng.uniform(1.3, 3))
@@ -202,13 +209,16 @@ def forked_unseeded(ctx, aotools, rng):
 
     def child(tag):
         out = []
-        for spec_ in u:
-            o = isolated.create(aotools, spec_)
-            d = digest(isolated.output_of(o))
-            if spec_["kind"] in ("vk", "fried"):
-                o.add_row()
-                d += digest(isolated.output_of(o))
-            out.append(d)
+        try:
+            for spec_ in u:
+                o = isolated.create(aotools, spec_)
+                d = digest(isolated.output_of(o))
+                if spec_["kind"] in ("vk", "fried"):
+                    o.add_row()
+                    d += digest(isolated.output_of(o))
+                out.append(d)
+        except Exception:
+            out = None            # the parent meets the same exception itself; do not keep it waiting
         q.put((tag, out))
 
     procs = [c.Process(target=child, args=(k,)) for k in range(3)]
@@ -217,7 +227,8 @@ def forked_unseeded(ctx, aotools, rng):
     for _ in procs:
         try:
             tag, out = q.get(timeout=600)
-            got[tag] = out
+            if out is not None:
+                got[tag] = out
         except Exception:
             break
     for p in procs:
@@ -234,6 +245,19 @@ def forked_unseeded(ctx, aotools, rng):
         ctx.count("unseeded_pairs")
         ctx.check(len(set(ds)) == len(ds), "unseeded_calls_identical_across_forked_processes:" + spec_["kind"],
                   "sibling processes forked after import produced identical unseeded %s screens" % spec_["kind"], {"kind": spec_["kind"]})
+
+
+def unseeded_birthday(ctx, aotools, rng, n):
+    """Unseeded calls draw from fresh OS entropy: among n rapid calls no two screens may coincide (a seed taken from a
+    clock, or from a small range, collides with probability ~ n^2 / (2 x range))."""
+    for kind, params, m in (("ft", {"N": 4, "delta": 0.1, "r0": 0.2, "L0": 20.0, "l0": 0.01}, n), ("ftsh", {"N": 4, "delta": 0.1, "r0": 0.2, "L0": 20.0, "l0": 0.01}, n // 2),
+                            ("vk", {"nx": 4, "ps": 0.1, "r0": 0.2, "L0": 20.0, "extra": 1}, n // 10), ("fried", {"nx": 5, "ps": 0.1, "r0": 0.2, "L0": 20.0, "extra": 1}, n // 10)):
+        u = {"kind": kind, "params": params, "seed": None}
+        ds = [digest(isolated.output_of(isolated.create(aotools, u))) for _ in range(m)]
+        ctx.case("unseeded_birthday:" + kind, key=("birthday", kind, ctx.shard, ctx.seed), nontrivial=True, sample={"kind": kind, "calls": m, "distinct": len(set(ds))})
+        ctx.count("unseeded_pairs", m * (m - 1) // 2)
+        ctx.check(len(set(ds)) == m, "unseeded_calls_identical:among_many:" + kind,
+                  "%d unseeded %s screens: only %d distinct" % (m, kind, len(set(ds))), {"kind": kind, "calls": m})
 
 
 def congruent_seeds(ctx, aotools, rng):
@@ -330,3 +354,4 @@ def run(ctx, spec):
     for p in range(spec["threaded"]):
         run_threaded(ctx, aotools, rng, p)
     congruent_seeds(ctx, aotools, rng)
+    unseeded_birthday(ctx, aotools, rng, 1500 if spec["programs"] <= 2 else 6000)
